@@ -73,12 +73,7 @@ def symEngine : Sign.Engine symCrypto String where
     simp [hc, hs, hq]
     simpa using hv
 
-def clsOf : Ledger.Cls → Sign.Class
-  | .std => .std
-  | .stk f => .stk f
-  | .bindOld _ => .bind
-  | .bindNew _ => .bind
-  | .raw => .other
+abbrev clsOf : Ledger.Cls → Sign.Class := SignTab.clsOf
 
 open Ledger in
 /-- existsMsgTx / existsUnminedTx / index check / existsOutPoint of signWitnessTx, on the ledger model -/
@@ -151,7 +146,7 @@ def specSign (st : St) (w pass flag : String) (t : Ledger.Tx) : Option String :=
     let coins := Spec.Chain.coinsOfWallet (Spec.Chain.ledgerOf st.led.own st.led.specChain) w
     -- a binding output whose transaction sits at / will be mined at a height ≥ the MASSIP-2 warm-up height is spent under
     -- the engine-level sequence rule (class `bind2`)
-    let up (c : Sign.Class) (h : Nat) : Sign.Class := if c = .bind ∧ st.led.warm ≤ h then .bind2 else c
+    let up (c : Sign.Class) (h : Nat) : Sign.Class := c.atHeight st.led.warm h
     let clsOfIn (i : Ledger.Inp) : Option Sign.Class :=
       match coins.find? (fun c => c.tx = i.tx && c.idx = i.idx) with
       | some c => some (up (clsOf c.cls) c.height)
@@ -205,8 +200,7 @@ def envVm (T : SignTab.Tab) (l : Led.St) (w pass : String) (warm : Nat) : Sign.E
     match resolve l w op with
     | .error e => .error e
     | .ok po =>
-      let cls := if po.cls = .bind ∧ warm ≤ prevHeight l w op then Sign.Class.bind2 else po.cls
-      .ok ⟨po.amt, cls, SignTab.shOf T po.addr⟩
+      .ok ⟨po.amt, po.cls.atHeight warm (prevHeight l w op), SignTab.shOf T po.addr⟩
   pubOf := fun h =>
     match SignTab.keyOf T h with
     | some (a, k) => (match AMap.get l.own a with | some (w', _) => if w' = w then some k else none | none => none)
@@ -233,6 +227,32 @@ def signVm (st : St) (w rpass p : String) (fl : Sign.Flag) (tx : Ledger.Tx) (tok
          | none => "ok"
          | some i => s!"ok!witness@{i}")
       | .error e => errTok e
+
+/-- `autosign` with oracle tokens: the transaction the REAL wallet built (token `t=<#outputs>=<inputs>`, symbolic names)
+    is signed by the model with the VM engine; the answer is compared with what the op must give (the rule the harness
+    applies to the real result): invalid flag ⇒ err:flag, wrong passphrase ⇒ err:pass, SIGHASH_SINGLE with more inputs
+    than outputs ⇒ err:script, else ok -/
+def autoVm (st : St) (w p flag : String) (toks : List String) : Option String :=
+  match toks with
+  | t :: rest =>
+    match t.splitOn "=", AMap.get st.ks.wal w with
+    | ["t", nOut, ins], some (r, _) =>
+      match nOut.toNat?, (Led.parseList ins).mapM Led.parseIn with
+      | some n, some is =>
+        let tx : Ledger.Tx := { id := "auto", cb := false, ins := is, outs := List.replicate n ⟨"X", 1, .std⟩ }
+        let fl := Sign.parseFlag flag
+        let want := match fl with
+          | none => "err:flag"
+          | some f =>
+            if p ≠ r.pass then "err:pass"
+            else if f.base = .single ∧ is.length > n then "err:script" else "ok"
+        let got := match fl with
+          | none => "err:flag"
+          | some f => signVm st w r.pass p f tx rest
+        some (if got = want then "pass" else "FAIL:" ++ got ++ "-want-" ++ want)
+      | _, _ => none
+    | _, _ => none
+  | [] => none
 
 def gateSpec (st : St) (w pass : String) : Option String :=
   match AMap.get st.ks.wal w with
@@ -465,6 +485,13 @@ def step (st : St) (args : List String) : St × String :=
   | ["txlock", t, lock, _] =>
     -- lock time and payload are covered by the signature hash only: no effect on the model
     if (AMap.get st.led.txs t).isNone || lock.toNat?.isNone then (st, "bad-op") else (st, "ok")
+  | "autosign" :: w :: p :: flag :: rest =>
+    -- oracle tokens (if any) follow the must|may word
+    let toks := (rest.dropWhile (fun s => s != "must" && s != "may")).drop 1
+    if toks.isEmpty then (st, "pass\tpass") else
+    match autoVm st w p flag toks with
+    | some m => ({ st with ks := { st.ks with wal := Secrets.clearAll st.ks.wal } }, m ++ "\tpass")
+    | none => (st, "bad-op")
   | "autosign" :: _ => (st, "pass\tpass")
   | _ =>
     let (l, o) := Led.step st.led args
